@@ -539,7 +539,8 @@ def h_shell_handler(msg_type):
         msg = {"header": header, "parent_header": {}, "metadata": {}, "content": content}
         ids = [frame_tok("identity0")]
         sends, evals, parses = [], [], []
-        outcome = ["value", "none", "raises"][eng.choose(3, "cell-outcome")] if msg_type in ("execute_request", "is_complete_request") else "value"
+        # (a cell's value can be false in a boolean context - 0, '', [], False - and is still a value: only None means "no value")
+        outcome = ["value", "none", "raises", "false-value"][eng.choose(4, "cell-outcome")] if msg_type in ("execute_request", "is_complete_request") else "value"
 
         def deserialize(it_, wire):
             if not authentic:
@@ -574,7 +575,7 @@ def h_shell_handler(msg_type):
                 suspended()
                 if outcome == "raises":
                     raise exc("ZeroDivisionError", "division by zero")
-                return None if outcome == "none" else 42
+                return None if outcome == "none" else (0 if outcome == "false-value" else 42)
             return Coro(th, "ast_ctx.eval")
         actx = Rec(fields={"parse": parse, "eval": ev, "completions": lambda it_, root: SymPySet([])}, name="ast_ctx")
         gctx = Rec(fields={"set_auto_start": lambda it_, b: None, "start": lambda it_: None}, name="global_ctx")
@@ -633,7 +634,9 @@ def h_shell_handler(msg_type):
                        and z3.is_true(z3.simplify(rep["execution_count"].t == count0.t)))
             results = [s_ for s_ in to_pub if s_["type"] == "execute_result"]
             errors = [s_ for s_ in to_pub if s_["type"] == "error"]
-            eng.oblige(f"{U}/post.result-published-iff-the-cell-has-a-value", len(results) == (1 if outcome == "value" else 0) and len(errors) == (1 if outcome == "raises" else 0))
+            ob = eng.oblige(f"{U}/post.result-published-iff-the-cell-has-a-value", len(results) == (1 if outcome in ("value", "false-value") else 0) and len(errors) == (1 if outcome == "raises" else 0))
+            if ob.status == "refuted":
+                ob.witness = {"signature": "cell-value-dropped", "what": "value", "outcome": outcome}
             eng.oblige(f"{U}/post.reply-status-reflects-the-outcome", rep.get("status") == ("error" if outcome == "raises" else "ok"))
             if outcome == "raises":
                 eng.oblige(f"{U}/post.error-names-the-exception", errors and errors[0]["content"].get("ename") == "ZeroDivisionError")
